@@ -484,6 +484,9 @@ def run_wire(ctx, select=None, label="wire", focus="all", extra=None):
         vf.write_ndjson(p, rest)
         ok, info = ctx.tlc_trace("WireRunTrace", p, timeout=1800, env={"VF_FOCUS": focus})
         if ok:
+            probe = next((e for e in rest if e["expect"]["kind"] == "packet" and 2 <= len(e["probes"]) <= 300 and e["exit"] == 0), None)
+            if probe is not None and focus in ("coverage", "all"):
+                vf.selftest_event(ctx, "WireRunTrace", dict(probe, probes=probe["probes"][1:]), "first probe of an accepted run removed", env={"VF_FOCUS": "coverage"})
             break
         bad = rest[info["index"] - 1]
         bad["_clause"] = info["event"]
@@ -526,6 +529,17 @@ def scanrun_validate(ctx, pid, label="scanrun"):
         return ctx.tlc_trace("ScanRunTrace", p, timeout=900)
     with concurrent.futures.ThreadPoolExecutor(max_workers=8) as ex:
         res = list(ex.map(one, runs))
+    first = next((e for e, (ok, _i) in zip(runs, res) if ok and len(e["probes"]) >= 2), None)
+    if first is not None and os.environ.get("VF_SELFTEST", "0") == "1" and "ScanRunTrace" not in getattr(ctx, "_selftested", set()):
+        ev = scanrun_events(dict(first, probes=first["probes"][1:]))
+        p = os.path.join(ctx.scratch, "%s-selftest.ndjson" % label)
+        vf.write_ndjson(p, ev)
+        ok, _ = ctx.tlc_trace("ScanRunTrace", p, timeout=900)
+        if ok:
+            raise vf.Inconclusive("binding self-test failed: ScanRunTrace accepted a run with its first probe removed")
+        ctx.step("selftest-ScanRunTrace", corrupted="first probe of an accepted run removed", rejected=True)
+        ctx._selftested = getattr(ctx, "_selftested", None) or set()
+        ctx._selftested.add("ScanRunTrace")
     bad = []
     for e, (ok, info) in zip(runs, res):
         if not ok:
